@@ -117,6 +117,10 @@ def ref_value(v: Any, mask: int, shift: bool) -> Any:
         return v + 1000 if shift else v
     if isinstance(v, PurePath):
         return v.as_posix()
+    if isinstance(v, bytes):
+        import base64
+
+        return base64.encodebytes(v).decode()
     if isinstance(v, (tuple, list, frozenset)):  # only empty frozensets occur (field defaults)
         return [ref_value(x, mask, shift) for x in v]
     if type(v).__name__ == "Bomb":
@@ -226,7 +230,18 @@ def _decode(fmt: str, payload: Any) -> Any:
     if fmt == "json":
         return orjson.loads(payload)
     if fmt == "msgpack":
-        return msgpack.unpackb(payload, raw=False)
+        import base64
+
+        def norm(x: Any) -> Any:  # MessagePack carries bytes natively; the reference spells them as base64 text
+            if isinstance(x, bytes):
+                return base64.encodebytes(x).decode()
+            if isinstance(x, dict):
+                return {k: norm(v) for k, v in x.items()}
+            if isinstance(x, list):
+                return [norm(v) for v in x]
+            return x
+
+        return norm(msgpack.unpackb(payload, raw=False))
     return yaml.load(payload, Loader=getattr(yaml, "CSafeLoader", yaml.SafeLoader))
 
 
